@@ -83,6 +83,17 @@ def h_select_name(ctx, attr="load_one", twin=False, group=None):
         except FileFormatError:
             mod2 = None
         ctx.oblige("same-choice-for-bare-basename", mod2 is mod, cls=attr)
+        for other in OPS:
+            if other != attr:
+                try:
+                    api._select_format_module(fname, other, None)
+                except FileFormatError:
+                    pass
+        try:
+            mod3 = api._select_format_module(fname, attr, None)
+        except FileFormatError:
+            mod3 = None
+        ctx.oblige("same-choice-after-other-calls", mod3 is mod, cls=attr)
         if mod is None:
             raised, touched = _public_call(api, attr, fname, None)
             ctx.oblige("selection-error-is-FileFormatError-before-any-file-access",
@@ -122,6 +133,19 @@ def h_select_name(ctx, attr="load_one", twin=False, group=None):
             mod2 = None
         ctx.record("same-choice-for-bare-basename", f"{attr}", mod2 is mod,
                    {"fname": None if mod2 is mod else st.witness()})
+        # (2b) the choice does not depend on earlier calls: ask for the other operations, then again
+        for other in OPS:
+            if other != attr:
+                try:
+                    api._select_format_module(name, other, None)
+                except FileFormatError:
+                    pass
+        try:
+            mod3 = api._select_format_module(name, attr, None)
+        except FileFormatError:
+            mod3 = None
+        ctx.record("same-choice-after-other-calls", f"{attr}", mod3 is mod, {"fname": None if mod3 is mod else st.witness()},
+                   detail=f"{mod.__name__ if mod else None} then {mod3.__name__ if mod3 else None}")
         # (3) on an error path the public function raises FileFormatError before touching any file
         if mod is None:
             raised, touched = _public_call(api, attr, name, None)
